@@ -33,6 +33,19 @@ CHECKS = {
         "real": REAL_CONN, "stub": STUB_CONN,
         "assumptions": ["a failing carrier Close still closes (as net.Conn implementations do)", "no write-side backpressure: the simulated socket buffer is unbounded"],
     },
+    "C06": {
+        "level": "exploration",
+        "level_text": "Seeded client histories (1-6 peers, overlapping wildcard filters, multi-filter SUBSCRIBEs with differing QoS, all 3x3 QoS combinations, payloads up to 64 KiB) against the real Engine+MemoryBackend over simulated links. Strict mode: after every operation the system is run to quiescence and each peer's newly received PUBLISH packets must equal the prediction of a sequential reference broker exactly. Concurrent mode: peers act without waiting, backend calls are gated and released in seeded order, deliveries are judged against may/must sets from the call intervals observed at the Backend seam. Sampling, not proof.",
+        "level_note": "Trusts the reference broker in worlds/brk/c06.go and the 4.7 matcher (written from the MQTT text), the simrt overlay and synctest quiescence detection. Scripted peers acknowledge promptly; queue overflow is outside this check.",
+        "technique": "deterministic simulation: real broker over simulated links + scripted peers + sequential reference broker at quiescence + interval-based may/must oracle for concurrent histories",
+        "quick": {"runs": 24000, "budget_s": 45, "minimise_s": 40},
+        "thorough": {"runs": 600000, "budget_s": 1000, "minimise_s": 150},
+        "rule": "seed -> history of connect(clean/unclean, shared ids)/subscribe(1-4 filters)/unsubscribe/publish(QoS 0-2, size 0..64KiB)/disconnect/drop/close items over 1-6 peers; even seeds strict (quiescent after each item), odd seeds concurrent. Non-trivial = >=2 publishes and >=1 delivery; distinct = distinct event-log fingerprints (plan x schedule)",
+        "probes": ["publishes", "deliveries", "ambiguous_subscription_overlaps"],
+        "real": "broker.Engine, broker.Client (processor/dequeuer/acker goroutines), broker.MemoryBackend, topic.Tree, session.MemorySession, transport.NetConn/BaseConn, packet.Stream, mercury.Writer, tomb - unmodified",
+        "stub": "byte transport (sim/simnet), the clients (scripted peers using the real packet codec), probeBackend/faultConn pass-through wrappers, wall clock (virtual)",
+        "assumptions": ["peers acknowledge promptly and keep reading", "queues are large enough that MemoryBackend never reports ErrQueueFull in strict mode"],
+    },
     "C05": {
         "level": "exploration",
         "level_text": "Seeded search over operation histories and over interleavings of 2-16 caller goroutines pre-empted at every lock acquisition by the seeded runtime; every query compared with a map model after every mutation, concurrent histories checked for linearizability with porcupine, result slices checked for later modification, same binary under the race detector. Sampling, not proof.",
